@@ -28,14 +28,16 @@ def strategy(names):
         name = draw(st.sampled_from(names))
         mates = ds.LAYOUT.get(name, {}).get('mates', 2)
         reads = []
+        motif = draw(st.sampled_from(['none', 'none', 'tso', 'polyT', 'polyA', 'cs2bc', 't7', 'leadT'])) if name != 'CHICTV' else draw(st.sampled_from(['tso', 'tso', 'none']))
+        if name == 'TCHIC' and draw(st.integers(0, 3)) == 0:
+            motif = 'cs2bc'       # the transcriptome bleed-through branch of this strategy
         for m in range(mates):
             pre = draw(st.text(alphabet='ACGTACGTACGTACGTN', min_size=40, max_size=40))
-            il = draw(st.sampled_from([0, 1, 5, 30, 30, 60, 60, 150]))
+            il = draw(st.sampled_from([0, 1, 5, 30, 30, 60, 60, 150] if not (motif == 'cs2bc' and name == 'TCHIC') else [60, 60, 90, 150]))
             ins = draw(st.text(alphabet='ACGTACGTACGTACGTACGTN', min_size=il, max_size=il))
             n = len(pre) + len(ins)
             qual = ''.join(chr(33 + q) for q in draw(st.lists(st.integers(0, 51), min_size=n, max_size=n)))
             reads.append({'pre': pre, 'ins': ins, 'qual': qual})
-        motif = draw(st.sampled_from(['none', 'none', 'tso', 'polyT', 'polyA', 'cs2bc', 't7', 'leadT'])) if name != 'CHICTV' else draw(st.sampled_from(['tso', 'tso', 'none']))
         return {'strategy': name, 'exact_prefix': draw(st.sampled_from([None, None, None, None, 0, 1, 'both'])), 'bc_idx': draw(st.integers(0, 10 ** 6)), 'mismatch': draw(st.sampled_from([None, None, None, 0, 3, 7])),
                 'hd': draw(st.sampled_from([0, 0, 1])), 'reads': reads, 'motif': motif, 'motif_pos': draw(st.integers(0, 40)),
                 'perturb': draw(st.lists(st.tuples(st.integers(0, 1), st.integers(0, 120), st.sampled_from('ACGT'), st.integers(0, 51)), min_size=3, max_size=3)),
@@ -156,6 +158,8 @@ def eval_case(case):
         return out.label('rejected:%s' % name)
     snap = snapshot(tagged)
     out.label('accepted:%s' % name)
+    if snap and snap[0]['tags'].get('dt') not in (None, 'CHIC'):
+        out.label('branch:%s:%s' % (name, snap[0]['tags'].get('dt')))
     if len(snap) != len(records):
         out.bad('%s:record-count' % name, '%d records in, %d out' % (len(records), len(snap)))
         return out
